@@ -225,7 +225,7 @@ def nontrivial(c):
 def run(ctx):
     thorough = ctx.tier == "thorough"
     nf = 3 if thorough else 2
-    ctx.rule = ("D1: 1..%d features (type gene/exon; ID absent / valueless / one value / two values; Name absent / one / two values) x 13 id_spec forms "
+    ctx.rule = ("D1: 1..%d features (type gene/exon; ID absent / valueless / one value / two values; Name absent / one / two values) x 16 id_spec forms (incl. tuples instead of lists) "
                 "(default, string, lists, dicts of string/list, ':seqid:' / ':source:', callables returning None / a constant / 'autoincrement:X' / an attribute), "
                 "enumerated by MC_DB04 with invariants KeysUnique, Reject, FirstPresent, Numbering, Counters; every case imported from Feature objects and compared "
                 "row by row incl. persisted counters, db[key], db[feature], absent keys; D2: random feature lists x 7 further specs through Gen_DB. "
@@ -236,11 +236,9 @@ def run(ctx):
         return
     cases = mc.json
     ctx.exhaustive = True
-    if len(cases) > 12200:
-        cases = ctx.rng.sample(cases, 40000)
-        ctx.exhaustive = False
-    elif not thorough:
-        cases = ctx.rng.sample(cases, 6000)
+    limit = 40000 if thorough else 6000
+    if len(cases) > limit:
+        cases = ctx.rng.sample(cases, limit)
         ctx.exhaustive = False
     res = core.pmap(run_one, cases)
     for c, (raised, snap, fails) in zip(cases, res):
@@ -308,7 +306,7 @@ def replay(ctx, rec):
                 return True
         return False
     if "feats" not in c:
-        return True
+        raise core.CannotReplay("no executable case in this replay file")
     hist = [{"init": {"feats": c["feats"], "cfg": c["cfg"], "dirs": []}, "steps": [], "rel": False}]
     e = G.model(ctx, hist, workers=1)[0]
     raised, snap, fails = observe(c["feats"], c["cfg"])
